@@ -116,7 +116,7 @@ def obligations(tier, seed):
                     continue
                 if pname == "async" and b == "pickle":
                     continue
-                full = tier == "thorough" and b == "none" and not comp
+                full = tier == "thorough" and b == "none" and not comp and pname != "rich"
                 obs.append({"name": "hist/%s/compress=%s/boundary=%s" % (pname, comp, b), "fn": "ob_hist", "mode": "S",
                             "params": {"programs": pname, "compress": comp, "boundary": b,
                                        "full_universe": full, "fix_form2": True,
